@@ -9,9 +9,11 @@ LEVEL = "exploration"
 RULE = ("Same polling workload as C12 (register-evolving peer; step mode drives every 16-bit code word through all "
         "65536 values in thorough, 2048 in quick; plus zero / FF / boundary / random contents).  Oracle, computed from "
         "the DEVICE's registers: '<x>_label' == table lookup of the code; bitmap labels == names of exactly the set "
-        "bits (4-byte all-ones = none; two-word bitmaps: high word x 65536 + low word); ET ppv = sum of the four PV "
-        "power registers, grid_in_out thresholds (-90/90) and label, house_consumption = ppv + pbattery1 - "
-        "active_power; DT ppvN/pgridN = round(V x I), ppv = sum; ES ppv1/ppv2/ppv, ibattery1/pbattery1 sign rule "
+        "bits (4-byte all-ones = none; two-word bitmaps: high word x 65536 + low word); ET ppv = sum of the PV power "
+        "registers of the strings whose ppvN are in the same result (a total that also adds the registers of strings "
+        "the model does not list gets the key suffix ':hidden-strings', a listed known finding), grid_in_out thresholds (-90/90) and label, house_consumption = ppv + pbattery1 - "
+        "active_power; DT ppvN/pgridN = round(V x I), ppv = sum of the listed ppvN; plus, for EVERY pair of ids <x> / "
+        "<x>_label in one result, label == table lookup of the code reported under <x>; ES ppv1/ppv2/ppv, ibattery1/pbattery1 sign rule "
         "(battery mode 3), pgrid sign rule (grid mode 2), plant_power, house_consumption - formulas as written in the "
         "comments next to the tables.  Rounded products may differ by the last rounding step (|lib - exact| <= 0.5 "
         "per rounded term).  Non-trivial: every poll; distinct: (configuration, fill mode, k).")
